@@ -103,14 +103,15 @@ func scenC18(e *Env) func() {
 		// flavour: one connection idle, another one released at the very instant the idle list
 		// is swept (CloseIdleConnections), and a later call that uses whatever the pool holds
 		d := Pick(e, 50, 200)
-		p.MaxConns, p.TLS, p.IdleMs, p.ConnDurMs = Pick(e, 2, 3), false, 10000, 0
+		p.MaxConns, p.TLS, p.IdleMs, p.ConnDurMs = Pick(e, 4, 5), false, 10000, 0
 		for i := range p.Dials {
 			p.Dials[i] = c18Dial{Kind: "ok"}
 		}
 		ok := func(id string, gap, delay int) c18Call {
 			return c18Call{ID: id, GapMs: gap, Method: "GET", Act: srvAction{Status: 200, BodyLen: 10, Framing: "cl", DelayMs: delay}}
 		}
-		p.Callers = [][]c18Call{{ok("0-0", 0, 0)}, {ok("1-0", 0, d)}, {ok("2-0", d+100, 0), ok("2-1", 0, 0)}}
+		// two connections idle from 10 ms on, two busy until d, the sweep at d, later calls use the pool
+		p.Callers = [][]c18Call{{ok("0-0", 0, 10)}, {ok("1-0", 0, 10)}, {ok("2-0", 0, d)}, {ok("3-0", 0, d)}, {ok("4-0", d+100, 0), ok("4-1", 0, 0)}, {ok("5-0", d+100, 5)}}
 		p.CloseIdleAtMs = []int{d}
 	}
 	e.Sample = p
